@@ -195,10 +195,43 @@ type selfTestResult struct {
 }
 
 // runSelfTest runs every variant of the property and returns the results.
-func runSelfTest(pd *PropDoc, verif string) []selfTestResult {
+func runSelfTest(pd *PropDoc, verif string, pkgs map[string]bool) []selfTestResult {
 	dir := filepath.Join(verif, "variants", pd.ID)
 	ents, _ := filepath.Glob(filepath.Join(dir, "*.diff"))
 	sort.Strings(ents)
+	// behaviour-preserving refactors recorded for OTHER properties that touch a package this property analyses: they must
+	// not alarm this property either (cross-property false-alarm resistance)
+	foreignName := map[string]string{}
+	pkgDirs := map[string]bool{}
+	for p := range pkgs {
+		pkgDirs[strings.TrimPrefix(strings.TrimPrefix(p, "go.opentelemetry.io/otel"), "/")] = true
+	}
+	foreign, _ := filepath.Glob(filepath.Join(verif, "variants", "C*", "agent*.diff"))
+	sort.Strings(foreign)
+	for _, f := range foreign {
+		owner := filepath.Base(filepath.Dir(f))
+		if owner == pd.ID {
+			continue
+		}
+		v, err := readVariant(f)
+		if err != nil || v.Expect != "silent" {
+			continue
+		}
+		touches := false
+		for rel := range v.Files {
+			d := filepath.Dir(rel)
+			if d == "." {
+				d = ""
+			}
+			if pkgDirs[d] {
+				touches = true
+			}
+		}
+		if touches {
+			foreignName[f] = owner + "/" + v.Name
+			ents = append(ents, f)
+		}
+	}
 	// seeded changes written by independent sub-agents (seeded/<ID>-s<k>/patch.diff; expectation in expect.txt, written by
 	// tools/seeded_eval.py: "fire:<rules>" or "not-decided" for the changes no sound static rule reaches)
 	seeds, _ := filepath.Glob(filepath.Join(verif, "seeded", pd.ID+"-[st]*", "patch.diff"))
@@ -227,6 +260,9 @@ func runSelfTest(pd *PropDoc, verif string) []selfTestResult {
 			}
 		} else {
 			v, err = readVariant(p)
+			if v != nil && foreignName[p] != "" {
+				v.Name = foreignName[p]
+			}
 		}
 		if err != nil {
 			res = append(res, selfTestResult{Variant: filepath.Base(p), Status: "not-applicable: " + err.Error()})
